@@ -50,6 +50,7 @@ FIELD_RANGES = {}
 
 # return-range summaries of analysed functions, filled by retsum.register(): callee path -> (lo, hi)
 RET_RANGES = {}
+NZ = ("C", 0)       # right-hand side of the `term != 0` facts kept in State.rel
 # function path -> MIR projection list p such that the function returns `(*arg0).p` (a plain field getter)
 GETTERS = {}
 # function path -> (success variant, [(payload path, op, other)]) : facts about the Ok/Some payload that hold at every return
@@ -1507,6 +1508,15 @@ class Intervals:
             return False
         la = ta if ta is not None else self.term_of(st, oa)
         lb = tb if tb is not None else self.term_of(st, ob)
+        if op == "Ne":
+            # `x != 0` on a range that spans zero cannot be expressed as an interval: remember it as a fact about the term
+            # (and the locals currently equal to it), for the division-by-zero obligations
+            for lt, other in ((la, b), (lb, a)):
+                if lt is not None and other[0] == other[1] == 0:
+                    st.rel.add((lt, "!=", NZ))
+                    for k, v in list(st.alias.items())[:64]:
+                        if v == lt:
+                            st.rel.add((k, "!=", NZ))
         if la is not None and lb is not None and la != lb:
             # the fact is recorded for the canonical terms and for the locals currently known to hold the same values: which
             # term is canonical can differ from one fixpoint round to the next (an alias dropped at a join), and a relation
@@ -2246,6 +2256,10 @@ class Intervals:
                 return False, f"shift amount {b}"
             tr = ty_range(ty) if ty else None
             a, b = self.rng(st, ops[0]), self.rng(st, ops[1])
+            if base in ("Div", "Rem") and tr is not None and a is not None and b is not None:
+                # the only overflowing signed division is MIN / -1 (MIN % -1)
+                if a[0] > tr[0] or b[0] > -1 or b[1] < -1:
+                    return True, "dividend excludes MIN or divisor excludes -1"
             m = self.binop(base, a, b, tr)
             if m is not None and tr is not None and fits(m, tr):
                 return True, f"{base} of [{a[0]}, {a[1]}] and [{b[0]}, {b[1]}] stays in {ty}"
@@ -2295,6 +2309,10 @@ class Intervals:
                     b = self.rng(st, d_op)
                     if b is not None and (b[0] > 0 or b[1] < 0):
                         return True, f"divisor in [{b[0]}, {b[1]}] excludes 0"
+                    td = self.term_of(st, d_op)
+                    if td is not None and ((td, "!=", NZ) in st.rel or
+                                           any((k, "!=", NZ) in st.rel for k, v in st.alias.items() if v == td)):
+                        return True, "divisor was tested != 0 on this path and not changed since"
                     return False, f"divisor {b} may be 0"
             return False, "divisor not identified"
         if kind == "bounds" and len(ops) == 2:
